@@ -231,6 +231,7 @@ class Conn(object):
         self.end = {client.side: client, server.side: server}
         self.sent = {"a": [], "b": []}
         self.got = {"a": 0, "b": 0}
+        self.wire = {"a": 0, "b": 0}    # I PDUs seen on the link per sender
         self.broken = False
 
 
@@ -246,7 +247,6 @@ class World(object):
         self.pending = []           # (kind, Sock|None, Box, info)
         self.answers = {}           # (side, name) -> admissible results
         self.views = {}             # (side, ssap) -> model view of a CONNECT
-        self.isent = {}             # (side, ssap, dsap) -> I PDUs on the wire
         self.stats = {}
         pair.taps.append(self.before_dispatch)
 
@@ -272,8 +272,13 @@ class World(object):
                     self.answers.setdefault((frame.src, name),
                                             set()).update(adm)
             elif q["type"] == "I":
-                k = (frame.src, q["ssap"], q["dsap"])
-                self.isent[k] = self.isent.get(k, 0) + 1
+                # credited to the newest connection on these addresses
+                for c in reversed(self.conns):
+                    me, peer = c.end[frame.src], c.end[dst]
+                    if me.group.addr == q["ssap"] and \
+                            peer.group.addr == q["dsap"]:
+                        c.wire[frame.src] += 1
+                        break
             elif q["type"] == "CONNECT":
                 name = None
                 if q["dsap"] == 1 and q["sn"]:
@@ -553,12 +558,17 @@ def op_send(w, s):
     # The message leaves at once: an I PDU still queued when its socket is
     # closed or frame-rejected is C05's finding (close/unsent-data), which
     # this check must not trip over.
-    key = (s.side, s.group.addr, c.end[other(s.side)].group.addr)
-    base = sum(1 for m in c.sent[s.side])
-    for _ in range(16):
-        if w.isent.get(key, 0) >= base or c.broken:
-            break
+    flush(w, s)
+
+
+def flush(w, s):
+    """exchange until every message accepted at s is on the link"""
+    c = s.conn
+    for _ in range(200):
+        if c.wire[s.side] >= len(c.sent[s.side]) or c.broken:
+            return True
         xfer(w, s.side)
+    return c.wire[s.side] >= len(c.sent[s.side])
 
 
 def op_recv(w, s):
@@ -698,6 +708,11 @@ def op_close(w, s):
     if NAME_CLASS in EXCLUDE_CLASSES and s.owner and s.group is not None \
             and s.group.name is not None:
         w.count("excluded:" + NAME_CLASS)
+        return
+    if s.conn is not None and not s.conn.broken and not flush(w, s):
+        w.count("close-skipped(unsent data)")
+        return
+    if not s.open or s.busy is not None:
         return
     s.open = False
     if s.conn is not None:
@@ -848,7 +863,10 @@ def run_machine(case, ctx):
         w = World(pair, ctx)
         run_ops(w, case["ops"])
         # let everything in flight arrive, then look at every receive queue
-        for _ in range(6):
+        idle = 0
+        for _ in range(80):
+            before = (w.pair.frames, w.stats.get("stream-received", 0),
+                      w.stats.get("datagrams-received", 0), len(w.conns))
             pump(w, 1)
             for side in "ab":
                 for s in list(w.socks[side]):
@@ -859,6 +877,11 @@ def run_machine(case, ctx):
                     elif s.kind == "ldl" and s.group is not None:
                         op_recvfrom(w, s)
             invariants(w)
+            after = (w.pair.frames, w.stats.get("stream-received", 0),
+                     w.stats.get("datagrams-received", 0), len(w.conns))
+            idle = idle + 1 if after == before else 0
+            if idle >= 2:
+                break
         for c in w.conns:
             if c.broken:
                 continue
